@@ -158,15 +158,19 @@ func (i *Interpreter) ProcessPrefixExpression(exp *ast.PrefixExpression, opt *Ex
 		}
 	case "-":
 		switch t := v.(type) {
+		// Note: the operand must not be modified, it may be a value held by a variable
 		case *value.Integer:
-			t.Value = -t.Value
-			return t, nil
+			negated := value.Unwrap[*value.Integer](t.Copy())
+			negated.Value = -t.Value
+			return negated, nil
 		case *value.Float:
-			t.Value = -t.Value
-			return t, nil
+			negated := value.Unwrap[*value.Float](t.Copy())
+			negated.Value = -t.Value
+			return negated, nil
 		case *value.RTime:
-			t.Value = -t.Value
-			return t, nil
+			negated := value.Unwrap[*value.RTime](t.Copy())
+			negated.Value = -t.Value
+			return negated, nil
 		default:
 			return value.Null, errors.WithStack(
 				exception.Runtime(&exp.GetMeta().Token, `Unexpected "-" prefix operator for %v`, v),
